@@ -82,9 +82,12 @@ def module_source(spec):
     """A module whose observable behaviour depends on whether / how it was transformed."""
     v = spec['v']          # version counter: edits change it
     pad = spec.get('pad', '')
+    imp = spec.get('imports')
     lines = [
         '"""generated module %s v%d"""' % (spec['name'], v),
         'from __future__ import annotations' if spec.get('future') else '',
+        # a nested import on the importing thread: hooked -> unhooked, unhooked -> hooked, hooked -> hooked
+        ('import %s.%s.%s as _dep' % (PKG, imp[0], imp[1])) if imp else '',
         'ORDER = []',
         'RESULT = {"version": %d}' % v,
         'def rec(fn):',
@@ -155,6 +158,10 @@ def generate(rng, run, tier):
                      'ptype': rng.choice(['int', 'str', 'list[int]']), 'pad': ''})
     if not any(m['sub'] == 'h' for m in mods):
         mods[0]['sub'] = 'h'
+    for i in range(1, nmods):
+        if rng.random() < 0.35:
+            j = rng.randrange(i)        # only towards lower indices: no cycles
+            mods[i]['imports'] = [mods[j]['sub'], mods[j]['name']]
     nruns = rng.randint(2, 5)
     runs = []
     same_shape_only = False     # (was an avoid switch for C16-marker-ignores-configuration, repaired since)
@@ -173,6 +180,22 @@ def generate(rng, run, tier):
             rng.shuffle(order)
             nt = min(nmods, rng.choice([2, 2, 3]))
             threads = [order[i::nt] for i in range(nt)]
+            if any(m.get('imports') for m in mods):
+                # two threads never import the same module (import-system module locks stay real): a module and everything
+                # it imports go to one thread
+                comp = list(range(nmods))
+                for i, m in enumerate(mods):
+                    if m.get('imports'):
+                        j = [k for k, mm in enumerate(mods) if mm['name'] == m['imports'][1]][0]
+                        a, b = comp[i], comp[j]
+                        comp = [a if c == b else c for c in comp]
+                groups = {}
+                for i in order:
+                    groups.setdefault(comp[i], []).append(i)
+                gl = list(groups.values())
+                threads = [sum(gl[i::nt], []) for i in range(min(nt, len(gl)))]
+                if len(threads) < 2:
+                    threads = None
         run_spec = {'hook': hook, 'edits': edits, 'threads': threads, 'sched_seed': rng.getrandbits(48),
                     'p': rng.choice([0.02, 0.05, 0.1, 0.3]), 'crash_at': None,
                     # avoid switch: known finding C16-cache-from-source-race (hooked + unhooked imported concurrently)
@@ -599,7 +622,9 @@ def shrink(case, violation):
     if len(case['mods']) > 1:
         for j in range(len(case['mods'])):
             c = dict(case)
-            c['mods'] = case['mods'][:j] + case['mods'][j + 1:]
+            gone = case['mods'][j]['name']
+            c['mods'] = [({k: v for k, v in m.items() if k != 'imports'} if (m.get('imports') or [None, None])[1] == gone else m)
+                         for m in case['mods'][:j] + case['mods'][j + 1:]]
             c['runs'] = [dict(r, threads=None, edits=[e for e in r['edits'] if e['mod'] < len(c['mods'])],
                               import_order=None) for r in runs]
             yield c
@@ -620,5 +645,5 @@ SIGNATURES = {'marker_ignores_configuration': _sig_marker_conf, 'cache_from_sour
 
 
 def describe(case):
-    return {'mods': [(m['name'], m['sub'], m['ptype']) for m in case['mods']],
+    return {'mods': [(m['name'], m['sub'], m['ptype'], m.get('imports')) for m in case['mods']],
             'runs': [{k: v for k, v in r.items() if k in ('hook', 'edits', 'threads', 'crash_at', 'scoped')} for r in case['runs']]}
